@@ -376,16 +376,23 @@ def addDefine (m : RMatrix) (d : DefLine) : RMatrix :=
   else if !defineOk d.definition then m.err
   else { m with defs := m.defs ++ [{ level := d.level, name := d.name, definition := d.definition }] }
 
+/-- `m<k>M`: a multiplexed multiplexer makes its frame one with extended multiplexing -/
+def tagIsValMuxer : Tag → Bool
+  | .valMuxer _ => true
+  | _ => false
+
+/-- the identifier a `BO_` line gets: `Frame(name, arbitration_id=int(..), ..)` raises for a standard identifier above 0x7FF (then the
+variable `frame` keeps its value); the pseudo frame of the signals without frame keeps its special number -/
+def boKey (b : BoLine) : Option (Nat × Bool) :=
+  if b.name == "VECTOR__INDEPENDENT_SIG_MSG".toList && b.id &&& 0x7FFFFFFF == 0x40000000 then
+    (keyOfCompound b.id).map fun _ => (0x40000000, true)
+  else match ArbId.fromCompound b.id with
+    | .ok a => some (a.id, a.ext)
+    | .error _ => none
+
 def applyCore (m : RMatrix) : Item → RMatrix
   | .bo b =>
-    -- `Frame(name, arbitration_id=int(..), ..)` raises for a standard identifier above 0x7FF: `frame` keeps its value
-    let key : Option (Nat × Bool) :=
-      if b.name == "VECTOR__INDEPENDENT_SIG_MSG".toList && b.id &&& 0x7FFFFFFF == 0x40000000 then
-        (keyOfCompound b.id).map fun _ => (0x40000000, true)
-      else match ArbId.fromCompound b.id with
-        | .ok a => some (a.id, a.ext)
-        | .error _ => none
-    match key with
+    match boKey b with
     | some k =>
       { m with frames := m.frames ++ [{ key := k, name := b.name, size := b.size, transmitters := [b.transmitter] }],
                cur := some m.frames.length }
@@ -395,7 +402,7 @@ def applyCore (m : RMatrix) : Item → RMatrix
     | some fi =>
       m.modFrame fi fun f =>
         { f with sigs := f.sigs ++ [{ sg := s }],
-                 complexMux := f.complexMux || (match s.tag with | .valMuxer _ => true | _ => false) }
+                 complexMux := f.complexMux || tagIsValMuxer s.tag }
     | none => m.err
   | .tx t =>
     let fi := frameIdx m t.id
